@@ -42,7 +42,7 @@ func DecodeURL(logger s3log.AuditLogger, mm *metrics.Manager) fiber.Handler {
 		// Bucket, key, version id and upload id become file system path
 		// elements: refuse anything that would be resolved to another
 		// location instead of being used as an opaque name.
-		if utils.HasDotSegment(unescp) {
+		if utils.HasDotSegment(unescp) || utils.IsUnsafePath(unescp) {
 			return controllers.SendResponse(ctx, s3err.GetAPIError(s3err.ErrInvalidURI), &controllers.MetaOpts{Logger: logger, MetricsMng: mm})
 		}
 		for _, arg := range []string{"versionId", "uploadId"} {
